@@ -171,6 +171,16 @@ def _cases(ctx):
         for tup in itertools.product(LINES, repeat=k):
             cases.append({'renderer': ['HtmlRenderer', 'MarkdownRenderer', 'XWiki20Renderer', 'JiraRenderer'][len(cases) % 4],
                           'kwargs': {}, 'text': '\n'.join(tup) + '\n'})
+    # long runs of one significant character, alone and inside the line shapes the block patterns look at (a pattern that
+    # backtracks exponentially on such a run hangs here; ordinary inputs never contain a run of this length)
+    for ch in '-=*_`~[]()<>!#|:&\\+.0 \t':
+        for n in (48, 200):
+            run = ch * n
+            for t in (run + '\n', run + 'x\n', 'a | b\n' + run + ' | =\n', '| ' + run + ' |\n|' + run + '\n', '> ' + run + ' x\n', '- ' + run + '\n  ' + run + 'y\n',
+                      'a\n' + run + ' z\n', '[' + run + ']: ' + run + '\n', '<' + run + '\n', '`' + run + '\n', ('a' + ch) * n + '\n'):
+                cases.append({'renderer': 'HtmlRenderer', 'kwargs': {}, 'text': t})
+                if n == 48:
+                    cases.append({'renderer': 'MarkdownRenderer', 'kwargs': {'max_line_length': 20}, 'text': t})
     for depth in (10, 50, 100):
         for kind in ('quote', 'list', 'bracket', 'emph', 'mixed', 'altlist', 'altlist2'):
             for rn, kw in (cs if depth == 100 and not kind.startswith('alt') else cs[:3]):
